@@ -892,7 +892,8 @@ def _pad_and_chunk_value_tables(ctx: Ctx):
         for mode in ("constant", "replicate", "reflect"):
             for rest in ((), (2,), (2, 2)):
                 fill = np.full(rest, VALUE).tolist()
-                for lens, give_lens in (([5, 3, 4, 2], True), ([5, 5, 5, 5], False)):
+                # (last: a batch of exactly TWO sequences - its (2, N) pad tensor is square, so a (N, 2) reading of it is not a shape error)
+                for lens, give_lens in (([5, 3, 4, 2], True), ([5, 5, 5, 5], False)) + ((([5, 3], True),) if rest == () else ()):
                     N = len(lens)
                     x = np.arange(N * T * int(np.prod(rest or (1,)))).reshape((N, T) + rest)
                     # ---- chunk_by_slices
